@@ -120,6 +120,13 @@ def isLiteralAttr (n : List Char) : Bool :=
 def isOpaqueAttr (n : List Char) : Bool :=
   n == ['s', 't', 'y', 'l', 'e'] || n == ['d'] || n == ['c', 'o', 'n', 't', 'e', 'n', 't', 'S', 't', 'y', 'l', 'e', 'T', 'y', 'p', 'e']
 
+/-- `#xxyyzz` written `#xyz`: the same colour when the six characters are hexadecimal digits, otherwise neither
+is a colour -/
+def compactRel (a b : List Char) : Bool :=
+  match a with
+  | ['#', x1, x2, y1, y2, z1, z2] => x1 == x2 && y1 == y2 && z1 == z2 && b == ['#', x1, y1, z1]
+  | _ => false
+
 /-- value relation on plain values of an attribute named `n` -/
 def plainRel (n : List Char) (a b : List Char) : Bool :=
   a == b ||
@@ -132,7 +139,7 @@ def plainRel (n : List Char) (a b : List Char) : Bool :=
      (colorAttrs.contains n &&
         (match Verif.Spec.CssUnits.color a with
          | some c => Verif.Spec.CssUnits.color b == some c
-         | none => false)) ||
+         | none => compactRel a b)) ||
      dimRel a b)
 
 /-- **value relation** between the raw attribute values of input and output -/
@@ -141,6 +148,11 @@ def valRel (n : List Char) (vin vout : Option (List Char)) : Bool :=
   (match aval vin, aval vout with
    | some a, some b =>
      a == b ||
+     -- a viewBox value that is not four plain numbers: nothing to preserve
+     (n == ['v', 'i', 'e', 'w', 'B', 'o', 'x'] &&
+        (match plain a with
+         | some pa => (viewBoxOf pa).isNone
+         | none => true)) ||
      (match plain a, plain b with
       | some pa, some pb => plainRel n pa pb
       | _, _ => false)
